@@ -78,6 +78,15 @@ def shape(name, seed=0):
         A = full_input("A.txt", t3, l3, locs3[:1], k=0, seed=seed)
         B = full_input("B.txt", t3, l3, locs3[:1], k=1, seed=seed, missing=[("fcst", (1, 1, 0))])
         return [A, B]
+    if name == "single_leadtime":
+        A = full_input("A.txt", t3, l3[:1], locs3, k=0, seed=seed)
+        B = full_input("B.txt", t3, l3[:1], locs3, k=1, seed=seed, missing=[("fcst", (1, 0, 1))])
+        return [A, B]
+    if name == "no_valid_pair":
+        # every observation of the first file is missing: no case is valid for any score that uses observations
+        A = full_input("A.txt", t3, l3, locs3, k=0, seed=seed, missing=[("obs", (ti, li, si)) for ti in range(3) for li in range(3) for si in range(3)])
+        B = full_input("B.txt", t3, l3, locs3, k=1, seed=seed)
+        return [A, B]
     if name == "missing_slice":
         miss = [(f, (ti, 1, si)) for f in ("fcst", "pit", "p1", "p2", "p3", "q0.1", "q0.5", "q0.9", "e0", "e1", "e2", "crps")
                 for ti in range(3) for si in range(3)]
